@@ -294,6 +294,11 @@ type c05In struct {
 	ClientStopHow   string `json:"clientStopHow,omitempty"`
 	ClientStopAfter int    `json:"clientStopAfter,omitempty"`
 	Verbose         bool   `json:"verbose,omitempty"` // -v: server instances in sorted order
+	// Layout: where the suite files are: "" dir/suite<i>.yaml | samebase: dir/d<i>/basic.yaml (equal file
+	// names in different directories) | rel / mixed: paths relative to the working directory (mixed: every
+	// other one) | copy: samebase plus the first suite once more in a third file (two suites of one name:
+	// the suite set is refused) | twice: samebase, the first path given twice (one suite)
+	Layout string `json:"layout,omitempty"`
 	// Cli (op cli): the scenario goes through the real command built from the tree
 	Cli *c05Cli `json:"cli,omitempty"`
 	// TimeoutS: the watchdog of this scenario (0: 90 s) — Run not having returned by then is the
@@ -302,9 +307,13 @@ type c05In struct {
 }
 // c05Cli: how the command line is spelled.  MaxServers: flag (`--max-servers N`) | eq (`--max-servers=N`)
 // | default (not given: 4).  Port (mode client): `--port P` with a port that is free at that moment.
+// RunSpell / SkipSpell: how the patterns are given, in order: "L" the next pattern as a literal flag
+// value, "F<n>" the next n patterns in a file given as `@file` (nothing: all literal).
 type c05Cli struct {
-	MaxServers string `json:"maxServers"`
-	Port       bool   `json:"port,omitempty"`
+	MaxServers string   `json:"maxServers"`
+	Port       bool     `json:"port,omitempty"`
+	RunSpell   []string `json:"runSpell,omitempty"`
+	SkipSpell  []string `json:"skipSpell,omitempty"`
 }
 
 type c05Out struct {
@@ -397,8 +406,31 @@ func c05Files(in c05In, dir string) (map[string][]byte, []string) {
 		}
 		b, _ := protojson.Marshal(suite)
 		p := filepath.Join(dir, fmt.Sprintf("suite%d.yaml", i))
+		switch in.Layout {
+		case "samebase", "copy", "twice":
+			// every suite in a directory of its own, all files with the same name
+			p = filepath.Join(dir, fmt.Sprintf("d%d", i), "basic.yaml")
+		case "rel", "mixed":
+			// a path relative to the working directory (mixed: every other one)
+			if cwd, err := os.Getwd(); err == nil && (in.Layout == "rel" || i%2 == 1) {
+				if r, err := filepath.Rel(cwd, filepath.Join(dir, fmt.Sprintf("d%d", i%2), fmt.Sprintf("s%d.yaml", i/2))); err == nil {
+					p = r
+				}
+			} else {
+				p = filepath.Join(dir, fmt.Sprintf("d%d", i%2), fmt.Sprintf("s%d.yaml", i/2))
+			}
+		}
 		files[p] = b
 		paths = append(paths, p)
+		if i == 0 && in.Layout == "copy" {
+			// the first suite once more, in another file: two suites of one name
+			q := filepath.Join(dir, "again", "basic.yaml")
+			files[q] = b
+			paths = append(paths, q)
+		}
+	}
+	if in.Layout == "twice" && len(paths) > 0 {
+		paths = append(paths, paths[0]) // the same path given twice: one suite
 	}
 	return files, paths
 }
@@ -428,6 +460,7 @@ func c05Run(c *gen.Ctx, in c05In) c05Out {
 	defer os.RemoveAll(dir)
 	files, paths := c05Files(in, dir)
 	for p, b := range files {
+		os.MkdirAll(filepath.Dir(p), 0o755)
 		os.WriteFile(p, b, 0o644)
 	}
 	cfg := c05CfgYAML(in)
@@ -466,14 +499,15 @@ func c05Run(c *gen.Ctx, in c05In) c05Out {
 	}
 	var out c05Out
 	perms, err := cc.VerifC05Perms(files, cfg, mode, false, serverGRPC)
-	if err != nil {
-		out.LoadErr = err.Error()
-		return out
+	if err == nil {
+		out.Perms = perms
+		out.Base, err = cc.VerifC05Library(files, cfg, mode)
 	}
-	out.Perms = perms
-	if out.Base, err = cc.VerifC05Library(files, cfg, mode); err != nil {
+	if err != nil {
+		// the suite set (all files given) or the configuration is not acceptable: the run is made all the
+		// same — it must hand out nothing
 		out.LoadErr = err.Error()
-		return out
+		out.Perms, out.Base = []cc.VerifC05Perm{}, []cc.VerifC05Perm{}
 	}
 	t0 := time.Now()
 	done := make(chan error, 1)
@@ -504,12 +538,31 @@ func c05Run(c *gen.Ctx, in c05In) c05Out {
 		case "eq":
 			args = append(args, fmt.Sprintf("--max-servers=%d", in.MaxServers))
 		}
-		for _, p := range in.Run {
-			args = append(args, "--run", p)
+		spell := func(flag string, pats, how []string) {
+			k := 0
+			for fi, h := range how {
+				if k >= len(pats) {
+					break
+				}
+				if n, err := strconv.Atoi(strings.TrimPrefix(h, "F")); strings.HasPrefix(h, "F") && err == nil && n > 0 {
+					if k+n > len(pats) {
+						n = len(pats) - k
+					}
+					f := filepath.Join(dir, fmt.Sprintf("%s-%d.txt", strings.TrimPrefix(flag, "--"), fi))
+					os.WriteFile(f, []byte("# patterns\n"+strings.Join(pats[k:k+n], "\n")+"\n"), 0o644)
+					args = append(args, flag, "@"+f)
+					k += n
+					continue
+				}
+				args = append(args, flag, pats[k])
+				k++
+			}
+			for ; k < len(pats); k++ {
+				args = append(args, flag, pats[k])
+			}
 		}
-		for _, p := range in.Skip {
-			args = append(args, "--skip", p)
-		}
+		spell("--run", in.Run, in.Cli.RunSpell)
+		spell("--skip", in.Skip, in.Cli.SkipSpell)
 		if in.Verbose {
 			args = append(args, "-v")
 		}
@@ -772,6 +825,16 @@ func c05CliScenarios(c *gen.Ctx) []any {
 	add(c05In{Mode: "client", MaxServers: 4, Versions: []int{1, 2}, Protos: []int{1, 2, 3}, Behaviour: "ok", Suites: plain, Cli: &c05Cli{MaxServers: "default", Port: true}})
 	add(c05In{Mode: "client", MaxServers: 1, Versions: []int{1, 2}, Protos: []int{1, 3}, TLS: true, Behaviour: "ok", Suites: kinds[:2], Cli: &c05Cli{MaxServers: gen.Pick(r, []string{"flag", "eq"}), Port: true}})
 	add(c05In{Mode: "client", MaxServers: 2, Versions: []int{1, 2}, Protos: []int{1, 2}, Behaviour: "ok", Suites: plain, Cli: &c05Cli{MaxServers: "flag", Port: true}})
+	// the suite SET and the pattern SET the user gave: several --test-file arguments with equal file names
+	// in different directories / relative and absolute paths / one path twice / one suite in two files
+	// (refused: nothing handed out); --run / --skip as repeated flags mixing literals and @files (a
+	// literal before, between and after a file; two files)
+	two := []c05Suite{{Name: "P", Tests: plain[0].Tests}, {Name: "Q", Tests: []c05Test{{Name: "a/t0", St: 1}, {Name: "c/t3", St: 1}}}}
+	add(c05In{Mode: "both", MaxServers: 2, ExitDelayMs: 20, Versions: []int{1, 2}, Protos: []int{1, 2}, Behaviour: "ok", Suites: two, Layout: "samebase",
+		Run: []string{"P/**/a/t0", "Q/**", "**/b/*"}, Cli: &c05Cli{MaxServers: "flag", RunSpell: []string{"L", "F1", "L"}}})
+	add(c05In{Mode: "both", MaxServers: 3, Versions: []int{2}, Protos: []int{1, 2, 3}, Behaviour: "ok", Suites: append(append([]c05Suite{}, two...), c05Suite{Name: "R", Tests: plain[0].Tests[:1]}), Layout: gen.Pick(r, []string{"mixed", "rel", "twice"}),
+		Skip: []string{"**/a/t1", "Q/**/c/*", "R/**", "**/Protocol:PROTOCOL_GRPC_WEB/**"}, Cli: &c05Cli{MaxServers: "eq", SkipSpell: []string{"F1", "F2", "L"}}})
+	add(c05In{Mode: "both", MaxServers: 2, Versions: []int{2}, Protos: []int{1}, Behaviour: "ok", Suites: two, Layout: "copy", Cli: &c05Cli{MaxServers: "flag"}})
 	if c.Thorough() {
 		for i := 0; i < 12; i++ {
 			in := c05In{Mode: gen.Pick(r, []string{"both", "both", "client"}), MaxServers: r.Range(1, 4), ExitDelayMs: gen.Pick(r, []int{0, 20, 120}), LatencyMs: gen.Pick(r, []int{0, 2, 10}),
@@ -891,6 +954,9 @@ func runC05(c *gen.Ctx) error {
 				return "**/b/**"
 			}
 		}
+		if ns > 1 && r.Chance(1, 3) {
+			in.Layout = gen.Pick(r, []string{"samebase", "samebase", "mixed", "rel", "twice", "copy"})
+		}
 		in.Run, in.Skip = []string{}, []string{}
 		if r.Chance(1, 2) {
 			for i := r.Range(1, 2); i > 0; i-- {
@@ -928,6 +994,11 @@ func runC05(c *gen.Ctx) error {
 			Behaviour: "ok", Run: mp[0], Skip: mp[1], Suites: allKinds[:2]})
 	}
 	ins = append(ins, c05NameScenarios(c)...)
+	// the suite set as given in files (Flags.TestFiles): equal file names in different directories, a suite in two files
+	for _, layout := range []string{"samebase", "copy"} {
+		ins = append(ins, c05In{Mode: "both", MaxServers: 2, ExitDelayMs: 0, Versions: []int{1, 2}, Protos: []int{1, 3}, Behaviour: "ok", Run: []string{}, Skip: []string{},
+			Layout: layout, Suites: []c05Suite{{Name: "P", Tests: []c05Test{{Name: "a/t0", St: 1}, {Name: "b/t1", St: 3}}}, {Name: "Q", Tests: []c05Test{{Name: "a/t0", St: 1}}}}})
+	}
 	// server faults with slow-exiting servers and a single permit: the early-return paths of the
 	// batch runner must not free the permit while the aborted server is still alive
 	for _, beh := range []string{"garbage", "nocert"} {
